@@ -154,8 +154,10 @@ func VC15Sym() {
 	x := vrt.Byte("x", c1[0], c1[1])
 	tail := ""
 	if vrt.Param("two") != 0 {
-		c2 := classes[vrt.Choose("class2", 4)]
-		tail = string([]byte{vrt.Byte("y", c2[0], c2[1])})
+		// a second, appended character from one representative per class
+		// (the full square of both positions would be 63x63 enumerated paths
+		// per cell)
+		tail = []string{"", "b", "B", "7", "_"}[vrt.Choose("tail", 5)]
 	}
 	names := [3]string{"wq", "wqq", "w_q"}
 	names[which] = "w" + string([]byte{x}) + "k" + tail
